@@ -494,7 +494,7 @@ func (st *state) volumeOrder(rng *Rng, renderer string, base int) {
 
 func check(c *Ctx, r *Report) error {
 	rng := NewRng(c.Seed)
-	st := &state{r: r, u3: &Cases{Kind: "uni3", Imports: imp, Type: "ucase3", Fn: "umismatches3", PerShard: 4}, maxF: map[string]float64{}, ordMin: math.Inf(1)}
+	st := &state{r: r, u3: &Cases{Kind: "uni3", Imports: imp, Type: "ucase3", Fn: "umismatches3", InfoFn: "uinexact3", PerShard: 4}, maxF: map[string]float64{}, ordMin: math.Inf(1)}
 	st.coqTris = TierN(c.Tier, 40000, 300000, 20000)
 	var specs []Spec
 	if b, err := os.ReadFile(filepath.Join(c.Verif, "corpus", "C06.json")); err == nil {
